@@ -46,6 +46,9 @@ BODIES = {
     "clear_isr": bytes([0x32, 0x71, 0xFC, 0xF0]),
     "lcd_cmd": bytes([0x08, 0x45, 0xA8, 0x00, 0x20, 0x00]),
     "kil": bytes([0x32, 0x80, 0xF2, 0x32, 0x71, 0xFC, 0xF0]),
+    # reads KIL (queue emptied) but leaves the acknowledge to RETI: what RETI retires depends on what the runtime remembers
+    # about the delivered source
+    "kil_noack": bytes([0x32, 0x80, 0xF2]),
     "reenable": bytes([0x32, 0x71, 0xFC, 0xF0, 0x32, 0x79, 0xFB, 0x80]),
 }
 IMR_VALUES = [0x00, 0x04, 0x0F, 0x80, 0x81, 0x84, 0x87, 0x8F, 0x8B, 0xFF]
@@ -466,7 +469,7 @@ def run_shard(spec) -> Result:
                 runs.append((scen, 52 if tier == "quick" else 90, {6: ("on", 1)} if body == "reenable" else {}))
             # keyboard interrupts: a key goes down early, the handler reads KIL (which empties the queue) and acknowledges -
             # or does neither -, every step is a snapshot point, several of them inside the KEY handler
-            kcfgs = [(main, body, imr0) for main in ("nop", "halt") for body in ("kil", "empty", "clear_isr")
+            kcfgs = [(main, body, imr0) for main in ("nop", "halt") for body in ("kil", "kil_noack", "empty")
                      for imr0 in (0x84, 0x8F)]
             for j, (main, body, imr0) in enumerate(kcfgs):
                 if j % spec["parts"] != spec["part"]:
